@@ -513,7 +513,9 @@ func (f *folder) binop(op token.Token, l, r foldVal) foldVal {
 	return foldVal{}
 }
 
-var fieldTableCache = map[string][]int64{}
+// keyed by the variable object (unique per loaded program: the self-test loads
+// many variants of the repository in one process) and the field name
+var fieldTableCache = map[types.Object]map[string][]int64{}
 
 // ConstFieldTableOf returns, for a package-level array or slice of structs
 // initialised by a composite literal of constants, the table of one field
@@ -524,13 +526,16 @@ func (p *Program) ConstFieldTableOf(obj types.Object, field string) []int64 {
 	if !ok || v.Pkg() == nil || v.Parent() != v.Pkg().Scope() {
 		return nil
 	}
-	key := v.Pkg().Path() + "." + v.Name() + "." + field
 	tableMu.Lock()
 	defer tableMu.Unlock()
-	if t, ok := fieldTableCache[key]; ok {
-		return t
+	if m, ok := fieldTableCache[obj]; ok {
+		if t, ok := m[field]; ok {
+			return t
+		}
+	} else {
+		fieldTableCache[obj] = map[string][]int64{}
 	}
-	fieldTableCache[key] = nil
+	fieldTableCache[obj][field] = nil
 	pkg := p.Pkgs[v.Pkg().Path()]
 	if pkg == nil {
 		return nil
@@ -638,6 +643,6 @@ func (p *Program) ConstFieldTableOf(obj types.Object, field string) []int64 {
 			out[k] = x
 		}
 	}
-	fieldTableCache[key] = out
+	fieldTableCache[obj][field] = out
 	return out
 }
